@@ -12,6 +12,7 @@ DEFAULTS = [
     (r'dns/(name|character_string|question|resource_record|packet|header)\.rs|dns/rdata/.*\.rs',
      r'(^|::)(parse|parse_rdata|parse_section|new|extract_info_from_opt_rr)\b', r'.*', {'C01'}),
     (r'dns/name\.rs', r'as WireFormat::parse\b', r'invariant.*|termination|assert|postcondition', {'C06'}),
+    (r'dns/(question|resource_record|packet)\.rs|dns/rdata/macros\.rs', r'(^|::)(parse|parse_rdata|parse_section)\b', r'postcondition|invariant.*|assert', {'C05'}),
     # writers must not panic and must emit what their contract says
     (r'dns/.*\.rs', r'(^|::)(write_to|write_common|plain_append|write_header|len|build_bytes_vec|opt_rr|get_flags)\b', r'.*', {'C04'}),
     (r'dns/.*\.rs', r'(^|::)(write_compressed_to|compress_append|build_bytes_vec_compressed)\b', r'.*', {'C03', 'C07'}),
